@@ -174,6 +174,15 @@ func (p *Parser) GenerateBaseCode() (code string, err error) {
 			}
 		}
 
+		// A trailing comment on the line of the closing brace goes away with the interface.
+		// Left in place it would end up in the doc comment of the next declaration.
+		closeLine := p.fset.Position(maxPos).Line
+		for _, cg := range p.file.Comments {
+			if 0 < len(cg.List) && maxPos < cg.Pos() && p.fset.Position(cg.Pos()).Line == closeLine {
+				cg.List = nil
+			}
+		}
+
 		// Insert markers.
 		// Each marker must stay a comment group of its own: when the interface body is
 		// shorter than the marker text, or two interfaces are close to each other, a marker
